@@ -1,27 +1,31 @@
-"""Entry script of a *real* layer child (stub-validation tier): a fresh interpreter that loads
-the spec named by VERIF_SPEC_FILE, installs the world runtime and runs the real runner."""
+"""Entry script of REAL processes of the stub-validation tier: a fresh interpreter (parent or
+layer child) that loads the spec named by VERIF_SPEC_FILE, installs the world runtime and runs
+the real runner with no seam replaced.  Trace events are appended to VERIF_TRACE_FILE."""
 import json
 import os
 import sys
+import zlib
 
 sys.path.insert(0, os.path.dirname(os.path.dirname(os.path.abspath(__file__))))
 from vsim import boot  # noqa: E402
 
 boot.bootstrap()
 
+
+def pid_of_layer(name):
+    return 1 + zlib.crc32(name.encode()) % 1000000
+
+
 if __name__ == '__main__':
     from vsim import simrt
     spec = json.load(open(os.environ['VERIF_SPEC_FILE']))
     simpid = 0
     if '--resume-layer' in sys.argv:
-        simpid = 1 + int(sys.argv[sys.argv.index('--resume-layer') + 2])
-    tracefile = os.environ.get('VERIF_TRACE_FILE')
-    sink = None
-    if tracefile:
-        fd = os.open(tracefile, os.O_WRONLY | os.O_APPEND | os.O_CREAT)
-        sink = lambda ev: os.write(fd, (json.dumps(ev) + '\n').encode())  # noqa: E731
-    rt = simrt.install(spec['world'], spec.get('plan', []), simpid, sink)
+        simpid = pid_of_layer(sys.argv[sys.argv.index('--resume-layer') + 1])
+    fd = os.open(os.environ['VERIF_TRACE_FILE'], os.O_WRONLY | os.O_APPEND | os.O_CREAT)
+    rt = simrt.install(spec['world'], spec.get('plan', []), simpid,
+                       lambda ev: os.write(fd, (json.dumps(ev) + '\n').encode()))
     rt.orig_stdout, rt.orig_stderr = sys.stdout, sys.stderr
-    rt.real_stderr = sys.stderr
+    rt.real_stderr = sys.__stderr__
     import zope.testrunner
     zope.testrunner.run()
